@@ -230,6 +230,11 @@ def analyse(repo: Repo, rep: Report, fname: str, store_cats: frozenset, qr_table
             return True
         if isinstance(e, ast.Call) and dotted(e.func) == "sum" and norm(e.args[0]) == "store_results":
             return sum(env["sr"])
+        if t == "failed_instances":
+            # one record per failed sub-operation (failed-list rule): non-empty exactly when failed > 0
+            return ["x"] * env["sr"][1]
+        if isinstance(e, ast.Call) and dotted(e.func) == "len" and norm(e.args[0]) == "failed_instances":
+            return env["sr"][1]
         raise AnalysisError(f"{fq}: final-block condition not evaluable: {t}")
 
     cases = []
@@ -263,6 +268,39 @@ def analyse(repo: Repo, rep: Report, fname: str, store_cats: frozenset, qr_table
             rep.check(lists_failed, "final-status", fq, f"[{inst}] failed-instance list", "a Warning/Failure final response must carry the failed-instance list", mod=mod, node=tail[0])
 
 
+    # ---- the handler ends the operation itself: `status[0] == STATUS_SUCCESS` inside the loop ------------
+    # the same question as for the final block, with sub-operations possibly still remaining
+    early = [i for i in ast.walk(loop.ast) if isinstance(i, ast.If) and norm(i.test) == "status[0] == STATUS_SUCCESS"]
+    for br in early:
+        stub2 = ast.FunctionDef(name=fname + "_success", args=fn.args, body=br.body, decorator_list=[], lineno=br.lineno, col_offset=0)
+        paths2 = [p for p in path_summaries(stub2, body=br.body, may_raise=lambda n: False) if not p.raised]
+        groups = {}
+        for N, f_, w_, c_ in cases:
+            env = {"N": N, "sr": [N - f_ - w_ - c_, f_, w_, c_]}
+            try:
+                cands = [p for p in paths2 if all(bool(ev(c, env)) == taken for c, taken in p.conds)]
+            except AnalysisError as exc:
+                rep.defer(str(exc))
+                cands = []
+                break
+            if len(cands) != 1:
+                rep.defer(f"{fq}: the handler-yields-Success branch has {len(cands)} paths for N={N}, counters={env['sr']}")
+                continue
+            want_cat = "Success" if (f_ == 0 and w_ == 0) else "Warning"
+            groups.setdefault((id(cands[0]), want_cat), (cands[0], []))[1].append((N, f_, w_, c_))
+        for (_, want_cat), (p, members) in groups.items():
+            status = 0  # the handler's own Success unless the branch overrides it
+            sends = 0
+            for s_ in p.stmts:
+                if isinstance(s_, ast.Assign) and norm(s_.targets[0]) == "rsp.Status" and isinstance(s_.value, ast.Constant):
+                    status = s_.value.value
+                if isinstance(s_, ast.Expr) and isinstance(s_.value, ast.Call) and (dotted(s_.value.func) or "").endswith("dimse.send_msg"):
+                    sends += 1
+            got_cat = qr_table.get(status, (None,))[0]
+            inst = f"handler yields Success: {len(members)} counter cases e.g. N={members[0][0]} failed={members[0][1]} warning={members[0][2]} completed={members[0][3]} (expect {want_cat})"
+            rep.check(got_cat == want_cat and sends == 1, "final-status", fq, f"[{inst}] -> status {hex(status)} ({got_cat}), sends={sends}", f"when the handler ends the operation with Success the final response must be {want_cat} for these counters (Success only without failed and warning sub-operations): a Success with failed / warning counters above zero tells the requestor everything was retrieved", mod=mod, node=br)
+
+
 def run(repo: Repo, rep: Report, tier: str) -> None:
     rep.rule("conservation", "per loop iteration and at each Pending send: sum of store_results unchanged (== N); remaining drops by at most 1; others never drop")
     rep.rule("monotone", "remaining is only decremented, failed/warning/completed only incremented")
@@ -279,3 +317,8 @@ def run(repo: Repo, rep: Report, tier: str) -> None:
     rep.sample({"C-STORE status categories in table": sorted(cats)})
     for fname, tab in (("_get_scp", "QR_GET_SERVICE_CLASS_STATUS"), ("_move_scp", "QR_MOVE_SERVICE_CLASS_STATUS")):
         analyse(repo, rep, fname, cats, tables[tab])
+
+    # ---- the sub-operation's status is looked up in the storage table ---------------------------------------
+    from ..delegate import delegate
+    rep.rule("status-known", "every storage status the documentation lists is known to the table the sub-operation results are classified with (C28's docs-agreement)")
+    delegate(repo, rep, tier, "C28", ("docs-agreement",), "status-known", "a C-STORE sub-operation answered with that status misses the lookup and is counted as failed (and listed as failed) although the instance was stored with a warning")
